@@ -34,6 +34,20 @@ def run(ctx) -> None:
     progs = [v for r in rs for v in r.printed if isinstance(v, dict) and "body" in v]
     if len(progs) < 500:
         raise tlc.TLCFailure(f"GenC07 produced only {len(progs)} cases")
+    # .ascii with an escaped quote: the lexer keeps the string going over \' ; the statement does not say whether the
+    # text then contains the backslash, so both readings are accepted — but every quote of the text must be emitted
+    def esc_case(src_text, raw, unescaped, org):
+        def prog(bs):
+            return {"rom": "low", "defines": [], "body": [{"k": "stareq", "e": apr.num(org)}, {"k": "label", "n": "before"},
+                    {"k": "ascii", "s": bs, "src": src_text}, {"k": "label", "n": "after"},
+                    {"k": "data", "d": "dl", "es": [apr.ident("after")]}]}
+        p = prog([ord(c) for c in raw])
+        p["_alt"] = prog([ord(c) for c in unescaped])
+        return p
+    for org in (0x008000, 0x00FFFC):
+        progs.append(esc_case("say \\'hi\\'", "say \\'hi\\'", "say 'hi'", org))
+        progs.append(esc_case("\\'", "\\'", "'", org))
+        progs.append(esc_case("a\\'b", "a\\'b", "a'b", org))
     # seeded larger programs rich in data directives
     n = 200 if ctx.quick else 3000
     progs += [apr.gen_program(ctx.seed * 104729 + k, size=12, macros=False) for k in range(n)]
